@@ -47,17 +47,20 @@ def codes():
     return real_module('athlib.codes')
 
 
-DISCIPLINES = ['60', '100', '200', '300', '400', '800', '1500', '3000', '5000', '10000', 'MAR', 'XC', '3KW', '110H', '4x100', 'HJ', 'JT', 'SP', 'DEC']
+DISCIPLINES = ['60', '100', '200', '300', '400', '600', '800', '1000', '1500', '3000', '5000', '10000', 'MAR', 'XC', '3KW', '110H', '4x100', 'HJ', 'JT', 'SP', 'CT', 'jt',
+               'JT800', 'SP7.26K', 'DEC', 'hep']
 
 
 def kind_of(d):
+    """the clause of the property that applies to an event code, from the event-code families themselves (the regular
+    languages of C04), not from the membership tests the validator happens to use"""
     c = codes()
-    if d in c.FIELD_EVENTS:
-        return 'field'
-    if d.upper() in c.MULTI_EVENTS:
-        return 'multi'
     if c.PAT_RACES_FOR_DISTANCE.match(d) or d.upper() in c.CUSTOM_EVENTS:
         return 'free'
+    if c.PAT_FIELD.match(d):
+        return 'field'
+    if d.upper() in c.MULTI_EVENTS or (getattr(c, 'PAT_MULTI', None) is not None and c.PAT_MULTI.match(d)):
+        return 'multi'
     return 'timed'
 
 
@@ -67,7 +70,8 @@ def record_spec(discipline, gender):
     overall row for any other gender text (read from the data table, not through field_event_record)"""
     T = utils().FIELD_EVENT_RECORDS_BY_GENDER
     g = gender.lower() if isinstance(gender, str) else 'all'
-    return T[g if g in ('m', 'f') else 'all'].get(discipline.upper())
+    base = re.match(r'[A-Za-z]*', discipline).group(0).upper()          # 'JT800' -> 'JT', 'sp 7.26kg' -> 'SP'
+    return T[g if g in ('m', 'f') else 'all'].get(base)
 
 
 def result_ok(discipline, gender, prec, text, outcome):
@@ -444,7 +448,9 @@ def main(tier, seed):
                'speed limits checked with a 0.01 m/s tolerance (the code compares binary quotients)')
     shapes = text_shapes(tier)
     J = []
-    discs = DISCIPLINES if tier != 'quick' else ['100', '400', '800', '1500', '5000', 'MAR', 'XC', 'HJ', 'JT', 'DEC']
+    # one discipline on each side of every distance threshold of the cascade (200, 400, 800), the three with the h:m:s re-reading, road, field
+    # codes in their three spellings (base, lower case, weight-specific), multi
+    discs = DISCIPLINES if tier != 'quick' else ['100', '300', '400', '600', '800', '1500', '3000', '5000', 'MAR', 'XC', 'HJ', 'JT', 'CT', 'jt', 'JT800', 'DEC']
     for disc in discs:
         for shape in shapes:
             J.append(('sym', (disc, shape, None, 'all')))
@@ -462,7 +468,7 @@ def main(tier, seed):
                 J.append(('sym', (disc, shape, 3, 'all')))
         elif kind_of(disc) == 'timed' and disc in ('100', '800', 'MAR'):
             # with a precision option the text goes through format_seconds_as_time (callee contract): cheap shapes only
-            for shape in [((2,), ('.', 2), '', '.'), ((1, 2), None, ':', '.'), ((1, 2, 2), None, ':', '.')]:
+            for shape in [((2,), ('.', 2), '', '.'), ((1,), ('.', 3), '', '.'), ((2,), ('.', 3), '', '.'), ((1, 2), None, ':', '.'), ((1, 2, 2), None, ':', '.')]:
                 J.append(('sym', (disc, shape, 0, 'all')))
     n_st = 3000 if tier == 'quick' else 60000
     J += [('standin', (seed * 16 + i, n_st // 16)) for i in range(16)]
